@@ -670,7 +670,7 @@ func (s *Server) handleFileTransfer(ctx context.Context, rwc io.ReadWriter) erro
 		rLogger.Info(
 			"Folder upload started",
 			"dstPath", fullPath,
-			"TransferSize", binary.BigEndian.Uint32(fileTransfer.TransferSize),
+			"TransferSize", fileTransfer.size(),
 			"FolderItemCount", fileTransfer.FolderItemCount,
 		)
 
